@@ -386,23 +386,20 @@ theorem guid_bytes_eq_msdtyp :
     bytes → fields → bytes for all 2^128 values (and the `E` read is below 2^48). -/
 theorem fromRaw_toBytes_inverse :
     (∀ g : GUID, g.InWidth → fromRawBytes (toBytes g) = .ok g) ∧
-    (∀ (b : Bytes) (g : GUID), fromRawBytes b = .ok g → toBytes g = b.take 16 ∧ g.InWidth) := by
+    (∀ (b : Bytes) (g : GUID), 16 ≤ b.length → fromRawBytes b = .ok g → toBytes g = b.take 16 ∧ g.InWidth) := by
   constructor
   · intro g hg
     rw [fromRaw_toBytes, E_mask_of_lt g.E hg]
-  · intro b g h
-    exact ⟨toBytes_fromRaw b g h, fromRaw_E_lt b g h⟩
+  · intro b g hl h
+    exact ⟨toBytes_fromRaw b g hl h, fromRaw_E_lt b g h⟩
 
-/-- `FromRawBytes` has no error result: it panics exactly below 16 bytes (decoder totality is C07's subject;
-    stated here so that the domain of the two theorems above is explicit). -/
-theorem fromRaw_panics_iff_short (b : Bytes) : fromRawBytes b = .panic ↔ b.length < 16 := by
-  constructor
-  · intro h
-    by_cases hl : b.length < 16
-    · exact hl
-    · obtain ⟨b0, b1, b2, b3, b4, b5, b6, b7, b8, b9, b10, b11, b12, b13, b14, b15, rest, rfl⟩ := exists_cons16 b (by omega)
-      rw [fromRawBytes_cons16] at h; simp at h
-  · exact fromRawBytes_short b
+/-- `FromRawBytes` has no error result and is total (after `fixes/C07-guid-fromrawbytes-short.diff`): below
+    16 bytes the result is the nil GUID, and every result has `E` within its 48 bits.  (Stated here so
+    that the domain of the two theorems above is explicit; decoder totality is C07's subject.) -/
+theorem fromRaw_total (b : Bytes) :
+    (∃ g, fromRawBytes b = .ok g ∧ g.InWidth) ∧ (b.length < 16 → fromRawBytes b = .ok ⟨0, 0, 0, 0, 0⟩) := by
+  obtain ⟨g, hg⟩ := fromRawBytes_ok b
+  exact ⟨⟨g, hg, fromRaw_E_lt b g hg⟩, fromRawBytes_short b⟩
 
 /-! ## 5. GUID: the five text formats -/
 
